@@ -39,6 +39,7 @@ import (
 	"crypto/elliptic"
 	"crypto/rand"
 	"crypto/rsa"
+	"crypto/sha1"
 	"crypto/tls"
 	"crypto/x509"
 	"crypto/x509/pkix"
@@ -49,6 +50,7 @@ import (
 	"math/big"
 	"net"
 	"net/http"
+	"net/url"
 	"os"
 	"os/exec"
 	"path/filepath"
@@ -60,6 +62,7 @@ import (
 	"time"
 
 	martian "github.com/google/martian/v3"
+	"github.com/google/martian/v3/h2"
 	mlog "github.com/google/martian/v3/log"
 	"github.com/google/martian/v3/mitm"
 	"github.com/google/martian/v3/trafficshape"
@@ -75,8 +78,9 @@ const (
 	ack      = "C05-ACK\n"
 	ekmLabel = "EXPORTER-verif-c05"
 
-	ioDeadline      = 12 * time.Second // generous per-I/O hang guard (liveness only)
-	historyDeadline = 60 * time.Second
+	ioDeadline      = 20 * time.Second // generous per-I/O hang guard (liveness only)
+	historyDeadline = 90 * time.Second
+	dialTimeout     = 30 * time.Second // loopback dials of the harness (the machine is shared and often overloaded)
 )
 
 var (
@@ -122,6 +126,17 @@ type Phase struct {
 	Authority string   `json:"authority"`
 	Inner     string   `json:"inner"` // tls | plain
 	Forms     []string `json:"forms"`
+	Spell     string   `json:"spell,omitempty"` // how host-less requests are spelled: "" = HTTP/1.0, http11_nohdr, http11_empty
+	Kinds     []string `json:"kinds,omitempty"` // per request: get | post_cl | post_chunked | post_100 (default get)
+	Pad       int      `json:"pad,omitempty"`   // bytes of padding header in every request
+	Resp      string   `json:"resp,omitempty"`  // response the origin is asked for: "" (small) | cl5000 | cl40000 | chunked40000
+}
+
+func (p Phase) kind(idx int) string {
+	if idx-1 < len(p.Kinds) {
+		return p.Kinds[idx-1]
+	}
+	return "get"
 }
 
 // Script is one client connection.
@@ -131,6 +146,10 @@ type Script struct {
 	SNI    string  `json:"sni"`   // same | other
 	Early  bool    `json:"early"` // first tunnel bytes in the same segment as the CONNECT head
 	Auth   string  `json:"auth"`  // label of the authority spelling (phase 0)
+
+	Pipelined  bool   `json:"pipelined,omitempty"`  // all requests of a tunnel are written at once, then the responses read
+	Untrusting bool   `json:"untrusting,omitempty"` // the client does not trust the MITM CA: its handshake fails
+	After      string `json:"after,omitempty"`      // what an untrusting client does next: close | plaintext
 }
 
 // History is one enumerated scenario.
@@ -142,6 +161,10 @@ type History struct {
 	Conns    []Script `json:"conns"`
 	Hijack   string   `json:"hijack"` // none | req | res  (modifier of the LAST request of connection 0)
 	Via      string   `json:"via"`    // conn | brw (which value returned by Hijack() the hijacker uses)
+
+	Mitm       string `json:"mitm,omitempty"`       // mitm.Config variant: "" | tuned | h2_allowed | h2_filtered
+	Origin     string `json:"origin,omitempty"`     // "" ok | badcert (untrusted certificate) | reset (closes on the ClientHello)
+	Downstream bool   `json:"downstream,omitempty"` // Proxy.SetDownstreamProxy(harness proxy)
 }
 
 func (h History) String() string {
@@ -149,11 +172,24 @@ func (h History) String() string {
 	for _, sc := range h.Conns {
 		var ps []string
 		for _, p := range sc.Phases {
-			ps = append(ps, fmt.Sprintf("%s{%s:%s}", p.Authority, p.Inner, strings.Join(p.Forms, ",")))
+			x := fmt.Sprintf("%s{%s:%s", p.Authority, p.Inner, strings.Join(p.Forms, ","))
+			if p.Spell != "" {
+				x += " spell=" + p.Spell
+			}
+			if p.Kinds != nil {
+				x += fmt.Sprintf(" kinds=%s pad=%d resp=%s", strings.Join(p.Kinds, ","), p.Pad, p.Resp)
+			}
+			ps = append(ps, x+"}")
 		}
 		s := strings.Join(ps, " then ")
-		if h.Space == "config" {
+		if h.Space == "config" || h.Space == "variant" {
 			s += fmt.Sprintf(" tls=%s sni=%s early=%v", sc.TLS, sc.SNI, sc.Early)
+		}
+		if sc.Pipelined {
+			s += " pipelined"
+		}
+		if sc.Untrusting {
+			s += " client-distrusts-CA then=" + sc.After
 		}
 		if h.Space == "nested" {
 			s = fmt.Sprintf("outerTLS(%s,sni=%s){CONNECT %s}", h.Outer, outerSNI, s)
@@ -161,6 +197,15 @@ func (h History) String() string {
 		cs = append(cs, s)
 	}
 	s := fmt.Sprintf("#%d [%s] listener=%s %s hijack=%s", h.ID, h.Space, h.Listener, strings.Join(cs, " || "), h.Hijack)
+	if h.Mitm != "" {
+		s += " mitm=" + h.Mitm
+	}
+	if h.Origin != "" {
+		s += " origin=" + h.Origin
+	}
+	if h.Downstream {
+		s += " via-downstream-proxy"
+	}
 	if h.Hijack != "none" {
 		s += " via=" + h.Via
 	}
@@ -230,12 +275,60 @@ func (h History) attrs(ci int, it item) map[string]string {
 			a["sni"] = sc.SNI
 			a["tls"] = sc.TLS
 		}
+	case "hostless":
+		a["port"] = sc.Auth
+		a["spell"] = sc.Phases[it.phase].Spell
+	case "traffic":
+		ph := sc.Phases[it.phase]
+		if it.idx > 0 {
+			a["kind"] = ph.kind(it.idx)
+		}
+		a["pad"] = strconv.Itoa(ph.Pad)
+		a["resp"] = ph.Resp
+		a["pipelined"] = strconv.FormatBool(sc.Pipelined)
+	case "upfail":
+		a["origin"] = h.Origin
+	case "hsfail":
+		a["after"] = sc.After
+	case "variant":
+		a["mitm"] = h.Mitm
+		a["tls"] = sc.TLS
+	case "reconnect":
+		a["first"] = sc.Phases[0].Inner
 	case "nested":
 		a["outer"] = h.Outer
 	case "pair":
 		a["peer"] = h.Conns[1-ci].Phases[0].Inner
 	}
 	return a
+}
+
+func ph(auth, inner string, fs []string) Phase {
+	return Phase{Authority: auth, Inner: inner, Forms: fs}
+}
+
+// seqsOver calls f with every sequence of length n over the alphabet.
+func seqsOver(alphabet []string, n int, f func([]string)) {
+	dims := make([]int, n)
+	for i := range dims {
+		dims[i] = len(alphabet)
+	}
+	lib.Product(dims, func(idx []int) {
+		fs := make([]string, n)
+		for i, x := range idx {
+			fs[i] = alphabet[x]
+		}
+		f(fs)
+	})
+}
+
+func contains(fs []string, x string) bool {
+	for _, f := range fs {
+		if f == x {
+			return true
+		}
+	}
+	return false
 }
 
 func formSeqs(n int, f func([]string)) {
@@ -273,7 +366,7 @@ func enumerate(tier string) []History {
 					for _, au := range coreAuths {
 						formSeqs(n, func(fs []string) {
 							add(History{Space: "core", Listener: l, Hijack: hk.pos, Via: hk.via,
-								Conns: []Script{{Phases: []Phase{{au.Authority, in, fs}}, TLS: "default", SNI: "same", Auth: au.Label}}})
+								Conns: []Script{{Phases: []Phase{ph(au.Authority, in, fs)}, TLS: "default", SNI: "same", Auth: au.Label}}})
 						})
 					}
 				}
@@ -291,7 +384,7 @@ func enumerate(tier string) []History {
 				for _, outer := range []string{"default", "tls12"} {
 					formSeqs(n, func(fs []string) {
 						add(History{Space: "nested", Listener: l, Outer: outer, Hijack: hk.pos, Via: hk.via,
-							Conns: []Script{{Phases: []Phase{{hostName + ":443", "tls", fs}}, TLS: "default", SNI: "same", Auth: "443"}}})
+							Conns: []Script{{Phases: []Phase{ph(hostName+":443", "tls", fs)}, TLS: "default", SNI: "same", Auth: "443"}}})
 					})
 				}
 			}
@@ -311,12 +404,13 @@ func enumerate(tier string) []History {
 								return
 							}
 							add(History{Space: "config", Listener: l, Hijack: "none",
-								Conns: []Script{{Phases: []Phase{{au.Authority, in, fs}}, TLS: "default", SNI: "same", Auth: au.Label}}})
+								Conns: []Script{{Phases: []Phase{ph(au.Authority, in, fs)}, TLS: "default", SNI: "same", Auth: au.Label}}})
 						})
 					}
 				}
 			}
 		}
+		extra(false, add)
 		return out
 	}
 	// config space
@@ -342,7 +436,7 @@ func enumerate(tier string) []History {
 									}
 									formSeqs(n, func(fs []string) {
 										add(History{Space: "config", Listener: l, Hijack: hk.pos, Via: hk.via,
-											Conns: []Script{{Phases: []Phase{{au.Authority, in, fs}}, TLS: prof, SNI: sni, Early: early, Auth: au.Label}}})
+											Conns: []Script{{Phases: []Phase{ph(au.Authority, in, fs)}, TLS: prof, SNI: sni, Early: early, Auth: au.Label}}})
 									})
 								}
 							}
@@ -353,18 +447,41 @@ func enumerate(tier string) []History {
 		}
 	}
 	// pair space
+	hjs3 := []hj{{"none", ""}, {"req", "conn"}, {"res", "brw"}}
 	for n := 1; n <= 2; n++ {
+		for _, hk := range hjs3 {
+			for _, l := range listeners {
+				for _, inA := range inners {
+					for _, inB := range inners {
+						if tlsListener(l) && (inA == "plain" || inB == "plain") {
+							continue
+						}
+						formSeqs(n, func(fa []string) {
+							formSeqs(n, func(fb []string) {
+								add(History{Space: "pair", Listener: l, Hijack: hk.pos, Via: hk.via, Conns: []Script{
+									{Phases: []Phase{ph(hostName+":443", inA, fa)}, TLS: "default", SNI: "same", Auth: "443"},
+									{Phases: []Phase{ph(hostName+":8443", inB, fb)}, TLS: "default", SNI: "same", Auth: "8443"},
+								}})
+							})
+						})
+					}
+				}
+			}
+		}
+	}
+	// pair space, unequal lengths: connection 0 is hijacked at its only request while connection 1 still has two to go
+	for _, hk := range hjs3[1:] {
 		for _, l := range listeners {
 			for _, inA := range inners {
 				for _, inB := range inners {
 					if tlsListener(l) && (inA == "plain" || inB == "plain") {
 						continue
 					}
-					formSeqs(n, func(fa []string) {
-						formSeqs(n, func(fb []string) {
-							add(History{Space: "pair", Listener: l, Hijack: "none", Conns: []Script{
-								{Phases: []Phase{{hostName + ":443", inA, fa}}, TLS: "default", SNI: "same", Auth: "443"},
-								{Phases: []Phase{{hostName + ":8443", inB, fb}}, TLS: "default", SNI: "same", Auth: "8443"},
+					formSeqs(1, func(fa []string) {
+						formSeqs(2, func(fb []string) {
+							add(History{Space: "pair", Listener: l, Hijack: hk.pos, Via: hk.via, Conns: []Script{
+								{Phases: []Phase{ph(hostName+":443", inA, fa)}, TLS: "default", SNI: "same", Auth: "443"},
+								{Phases: []Phase{ph(hostName+":8443", inB, fb)}, TLS: "default", SNI: "same", Auth: "8443"},
 							}})
 						})
 					})
@@ -375,20 +492,142 @@ func enumerate(tier string) []History {
 	// reconnect space
 	for n1 := 1; n1 <= 2; n1++ {
 		for n2 := 1; n2 <= 2; n2++ {
-			for _, l := range []string{"plain", "shaped"} {
-				for _, in2 := range inners {
-					formSeqs(n1, func(f1 []string) {
-						formSeqs(n2, func(f2 []string) {
-							add(History{Space: "reconnect", Listener: l, Hijack: "none", Conns: []Script{
-								{Phases: []Phase{{hostName + ":443", "plain", f1}, {hostName + ":8443", in2, f2}}, TLS: "default", SNI: "same", Auth: "443"},
-							}})
-						})
+			for _, hk := range hjs3 {
+				for _, l := range []string{"plain", "shaped"} {
+					for _, in1 := range []string{"plain", "tls"} {
+						for _, in2 := range inners {
+							if in1 == "tls" && in2 == "plain" {
+								continue // plaintext inside a tunnel that is itself inside TLS: not decided by the statement
+							}
+							formSeqs(n1, func(f1 []string) {
+								formSeqs(n2, func(f2 []string) {
+									add(History{Space: "reconnect", Listener: l, Hijack: hk.pos, Via: hk.via, Conns: []Script{
+										{Phases: []Phase{ph(hostName+":443", in1, f1), ph(hostName+":8443", in2, f2)}, TLS: "default", SNI: "same", Auth: "443"},
+									}})
+								})
+							})
+						}
+					}
+				}
+			}
+		}
+	}
+	extra(true, add)
+	return out
+}
+
+// combos are the (listener, tunnel content) pairs that exist.
+func combos(ls []string) [][2]string {
+	var out [][2]string
+	for _, l := range ls {
+		for _, in := range inners {
+			if tlsListener(l) && in == "plain" {
+				continue
+			}
+			out = append(out, [2]string{l, in})
+		}
+	}
+	return out
+}
+
+// extra enumerates the spaces added by the audit (reduced in the quick tier).
+func extra(thorough bool, add func(History)) {
+	one := func(p Phase, label string) []Script {
+		return []Script{{Phases: []Phase{p}, TLS: "default", SNI: "same", Auth: label}}
+	}
+	// hostless: the other spellings of a request that names no host
+	maxN := 2
+	if thorough {
+		maxN = 3
+	}
+	for n := 1; n <= maxN; n++ {
+		for _, c := range combos(listeners) {
+			for _, au := range coreAuths {
+				for _, spell := range []string{"http11_nohdr", "http11_empty"} {
+					seqsOver([]string{"nohost", "origin", "abs_http"}, n, func(fs []string) {
+						if !contains(fs, "nohost") {
+							return
+						}
+						p := ph(au.Authority, c[1], fs)
+						p.Spell = spell
+						add(History{Space: "hostless", Listener: c[0], Hijack: "none", Conns: one(p, au.Label)})
 					})
 				}
 			}
 		}
 	}
-	return out
+	// traffic: request bodies, Expect: 100-continue, large requests and responses, pipelining
+	kindSeqs := [][]string{{"get", "post_cl"}, {"post_chunked", "get"}, {"post_100", "post_100"}}
+	ls, resps, tforms := []string{"plain", "shaped_over_tls"}, []string{"", "cl5000", "chunked40000"}, []string{"origin"}
+	if thorough {
+		kindSeqs = nil
+		seqsOver([]string{"get", "post_cl", "post_chunked", "post_100"}, 2, func(ks []string) { kindSeqs = append(kindSeqs, ks) })
+		ls, resps, tforms = listeners, []string{"", "cl5000", "cl40000", "chunked40000"}, []string{"origin", "abs_http"}
+	}
+	for _, c := range combos(ls) {
+		for _, early := range []bool{false, true} {
+			if early && (tlsListener(c[0]) || !thorough) {
+				continue
+			}
+			for _, ks := range kindSeqs {
+				for _, pad := range []int{0, 5000} {
+					for _, resp := range resps {
+						for _, pipe := range []bool{false, true} {
+							for _, f := range tforms {
+								p := ph(hostName+":443", c[1], []string{f, f})
+								p.Kinds, p.Pad, p.Resp = ks, pad, resp
+								sc := one(p, "443")
+								sc[0].Pipelined, sc[0].Early = pipe, early
+								add(History{Space: "traffic", Listener: c[0], Hijack: "none", Conns: sc})
+							}
+						}
+					}
+				}
+			}
+		}
+	}
+	// the remaining spaces use every form sequence of length 1 (quick) or 1..2 (thorough)
+	maxN = 1
+	if thorough {
+		maxN = 2
+	}
+	for n := 1; n <= maxN; n++ {
+		formSeqs(n, func(fs []string) {
+			// upfail: the origin cannot be reached over TLS; the request must not go out in cleartext instead
+			for _, l := range listeners {
+				for _, om := range []string{"badcert", "reset"} {
+					add(History{Space: "upfail", Listener: l, Hijack: "none", Origin: om, Conns: one(ph(hostName+":443", "tls", fs), "443")})
+				}
+			}
+			// hsfail: the client rejects the forged certificate, then closes or goes on in plaintext
+			for _, l := range []string{"plain", "shaped"} {
+				// (a client that goes on in cleartext on the same connection is not enumerated: whether its bytes reach the
+				// proxy's HTTP reader or die in the failed tls.Conn's read buffer depends on segment timing)
+				for _, after := range []string{"close"} {
+					for _, prof := range []string{"default", "tls12"} {
+						sc := one(ph(hostName+":443", "tls", fs), "443")
+						sc[0].Untrusting, sc[0].After, sc[0].TLS = true, after, prof
+						add(History{Space: "hsfail", Listener: l, Hijack: "none", Conns: sc})
+					}
+				}
+			}
+			// variant: mitm.Config setters and HTTP/2 configuration with clients that end up speaking HTTP/1.1
+			for _, c := range combos(listeners) {
+				for _, vp := range [][2]string{{"tuned", "default"}, {"h2_allowed", "default"}, {"h2_allowed", "alpn_http11"}, {"h2_allowed", "tls12"}, {"h2_filtered", "alpn_h2"}, {"h2_filtered", "default"}} {
+					if c[1] == "plain" && vp[1] != "default" {
+						continue
+					}
+					sc := one(ph(hostName+":443", c[1], fs), "443")
+					sc[0].TLS = vp[1]
+					add(History{Space: "variant", Listener: c[0], Hijack: "none", Mitm: vp[0], Conns: sc})
+				}
+			}
+			// downstream: the proxy forwards through a downstream proxy
+			for _, c := range combos(listeners) {
+				add(History{Space: "downstream", Listener: c[0], Hijack: "none", Downstream: true, Conns: one(ph(hostName+":443", c[1], fs), "443")})
+			}
+		})
+	}
 }
 
 // ---- observations -------------------------------------------------------------------------------------------
@@ -426,6 +665,9 @@ type OriginReq struct {
 	TLS  bool   `json:"tls"`
 	Host string `json:"host"`
 	URI  string `json:"uri"`
+
+	BodyLen int    `json:"body_len"`
+	BodySum string `json:"body_sum"`
 }
 
 // OriginConn is one connection the origin accepted.
@@ -439,7 +681,9 @@ type OriginConn struct {
 type ClientRes struct {
 	Seq    int    `json:"seq"`
 	Status int    `json:"status"`
-	Body   string `json:"body"`
+	Body   string `json:"body"` // first 200 bytes
+	Len    int    `json:"len"`
+	Sum    string `json:"sum"`
 	Hijack bool   `json:"hijack_marker_header"`
 	Err    string `json:"err,omitempty"`
 }
@@ -487,6 +731,7 @@ type Outcome struct {
 	OriginReqs  []OriginReq  `json:"origin_reqs"`
 	OriginConns []OriginConn `json:"origin_conns"`
 	Dials       []string     `json:"dials"`
+	Down        []DownReq    `json:"downstream,omitempty"`
 	Hijack      *HijackObs   `json:"hijack,omitempty"`
 }
 
@@ -502,6 +747,41 @@ type env struct {
 	// tens of thousands of histories with fresh listeners each exhaust the loopback port space.
 	front  *hub
 	origin *hub
+	down   *hub
+
+	ca      *x509.Certificate
+	capriv  *rsa.PrivateKey
+	mcs     map[string]*mitm.Config // mitm.Config variants, built on first use
+	badCert tls.Certificate         // an origin certificate the proxy's transport does NOT trust
+}
+
+// mitmFor returns the mitm.Config variant a history asks for (all share the CA).
+func (e *env) mitmFor(v string) (*mitm.Config, error) {
+	if v == "" {
+		return e.mc, nil
+	}
+	if mc, ok := e.mcs[v]; ok {
+		return mc, nil
+	}
+	mc, err := mitm.NewConfig(e.ca, e.capriv)
+	if err != nil {
+		return nil, err
+	}
+	switch v {
+	case "tuned": // every setter that does not change what the property talks about
+		mc.SkipTLSVerify(true)
+		mc.SetValidity(30 * time.Minute)
+		mc.SetOrganization("C05 Tuned Org")
+		mc.SetHandshakeErrorCallback(func(*http.Request, error) {})
+	case "h2_allowed": // HTTP/2 support configured and allowed for every host
+		mc.SetH2Config(&h2.Config{AllowedHostsFilter: func(string) bool { return true }, RootCAs: e.originPool})
+	case "h2_filtered": // HTTP/2 support configured but allowed for no host
+		mc.SetH2Config(&h2.Config{AllowedHostsFilter: func(string) bool { return false }, RootCAs: e.originPool})
+	default:
+		return nil, fmt.Errorf("unknown mitm variant %q", v)
+	}
+	e.mcs[v] = mc
+	return mc, nil
 }
 
 // hub is a persistent TCP acceptor whose connections are handed to whoever is attached at the moment.
@@ -594,8 +874,14 @@ func (e *env) resetHubs() error {
 	if e.origin != nil {
 		e.origin.l.Close()
 	}
+	if e.down != nil {
+		e.down.l.Close()
+	}
 	var err error
 	if e.front, err = newHub(); err != nil {
+		return err
+	}
+	if e.down, err = newHub(); err != nil {
 		return err
 	}
 	e.origin, err = newHub()
@@ -640,7 +926,7 @@ func newEnv() (*env, error) {
 	if err != nil {
 		return nil, err
 	}
-	e := &env{mc: mc, mitmRoots: x509.NewCertPool(), originPool: x509.NewCertPool()}
+	e := &env{mc: mc, mitmRoots: x509.NewCertPool(), originPool: x509.NewCertPool(), ca: ca, capriv: priv, mcs: map[string]*mitm.Config{}}
 	e.mitmRoots.AddCert(ca)
 
 	key, err := ecdsa.GenerateKey(elliptic.P256(), rand.Reader)
@@ -669,6 +955,17 @@ func newEnv() (*env, error) {
 	}
 	e.originCert = tls.Certificate{Certificate: [][]byte{raw}, PrivateKey: key, Leaf: leaf}
 	e.originPool.AddCert(leaf)
+	// same names, another self-signed key pair that nobody trusts
+	key2, err := ecdsa.GenerateKey(elliptic.P256(), rand.Reader)
+	if err != nil {
+		return nil, err
+	}
+	tmpl.SerialNumber = big.NewInt(6)
+	raw2, err := x509.CreateCertificate(rand.Reader, tmpl, tmpl, key2.Public(), key2)
+	if err != nil {
+		return nil, err
+	}
+	e.badCert = tls.Certificate{Certificate: [][]byte{raw2}, PrivateKey: key2}
 	return e, e.resetHubs()
 }
 
@@ -727,15 +1024,19 @@ func (c *earlyConn) Read(p []byte) (int, error) {
 type origin struct {
 	l      net.Listener
 	tlsCfg *tls.Config
+	mode   string // "" | badcert | reset
 	mu     sync.Mutex
 	reqs   []OriginReq
 	conns  []OriginConn
 	open   []net.Conn
 }
 
-func newOrigin(e *env) (*origin, error) {
+func newOrigin(e *env, mode string) (*origin, error) {
 	l := e.origin.attach()
-	o := &origin{l: l, tlsCfg: &tls.Config{Certificates: []tls.Certificate{e.originCert}}}
+	o := &origin{l: l, mode: mode, tlsCfg: &tls.Config{Certificates: []tls.Certificate{e.originCert}}}
+	if mode == "badcert" {
+		o.tlsCfg = &tls.Config{Certificates: []tls.Certificate{e.badCert}}
+	}
 	go func() {
 		for {
 			c, err := l.Accept()
@@ -783,6 +1084,9 @@ func (o *origin) serve(c net.Conn) {
 	o.mu.Unlock()
 	kind := "clear"
 	var rw net.Conn = &bufConn{c, br}
+	if isTLS && o.mode == "reset" {
+		return // the origin hangs up on the ClientHello
+	}
 	if isTLS {
 		kind = "tls"
 		tc := tls.Server(rw, o.tlsCfg)
@@ -800,13 +1104,109 @@ func (o *origin) serve(c net.Conn) {
 		if err != nil {
 			return
 		}
-		io.Copy(io.Discard, req.Body)
+		if strings.EqualFold(req.Header.Get("Expect"), "100-continue") {
+			io.WriteString(rw, "HTTP/1.1 100 Continue\r\n\r\n")
+		}
+		got, _ := io.ReadAll(req.Body)
 		conn, seq := hdrInt(req.Header, "X-C05-Conn"), hdrInt(req.Header, "X-C05-Seq")
 		o.mu.Lock()
-		o.reqs = append(o.reqs, OriginReq{Conn: conn, Seq: seq, TLS: isTLS, Host: req.Host, URI: req.RequestURI})
+		o.reqs = append(o.reqs, OriginReq{Conn: conn, Seq: seq, TLS: isTLS, Host: req.Host, URI: req.RequestURI, BodyLen: len(got), BodySum: sum(string(got))})
 		o.mu.Unlock()
-		body := originBody(kind, conn, seq)
+		resp := req.Header.Get("X-C05-Resp")
+		body := respBody(kind, resp, conn, seq)
+		if resp == "chunked40000" {
+			fmt.Fprintf(rw, "HTTP/1.1 200 OK\r\nContent-Type: text/plain\r\nTransfer-Encoding: chunked\r\nX-C05-Origin: %s\r\n\r\n", kind)
+			for _, part := range []string{body[:100], body[100:20000], body[20000:]} {
+				fmt.Fprintf(rw, "%x\r\n%s\r\n", len(part), part)
+			}
+			io.WriteString(rw, "0\r\n\r\n")
+			continue
+		}
 		fmt.Fprintf(rw, "HTTP/1.1 200 OK\r\nContent-Type: text/plain\r\nContent-Length: %d\r\nX-C05-Origin: %s\r\n\r\n%s", len(body), kind, body)
+	}
+}
+
+// DownReq is one request the harness downstream proxy received from martian's transport.
+type DownReq struct {
+	Method string `json:"method"`
+	Target string `json:"target"`
+	First  string `json:"first_tunnel_byte,omitempty"` // CONNECT: first byte sent through the tunnel
+}
+
+// downstream is a minimal HTTP proxy (CONNECT tunnels and cleartext forwarding) in front of the origin.
+type downstream struct {
+	l      net.Listener
+	origin string
+	mu     sync.Mutex
+	log    []DownReq
+	open   []net.Conn
+}
+
+func newDownstream(e *env, originAddr string) *downstream {
+	d := &downstream{l: e.down.attach(), origin: originAddr}
+	go func() {
+		for {
+			c, err := d.l.Accept()
+			if err != nil {
+				return
+			}
+			d.mu.Lock()
+			d.open = append(d.open, c)
+			d.mu.Unlock()
+			go d.serve(c)
+		}
+	}()
+	return d
+}
+
+func (d *downstream) close() {
+	d.l.Close()
+	d.mu.Lock()
+	for _, c := range d.open {
+		c.Close()
+	}
+	d.mu.Unlock()
+}
+
+func (d *downstream) serve(c net.Conn) {
+	defer c.Close()
+	c.SetDeadline(time.Now().Add(2 * time.Minute))
+	br := bufio.NewReader(c)
+	for {
+		req, err := http.ReadRequest(br)
+		if err != nil {
+			return
+		}
+		oc, err := net.DialTimeout("tcp", d.origin, dialTimeout)
+		if err != nil {
+			io.WriteString(c, "HTTP/1.1 502 Bad Gateway\r\nContent-Length: 0\r\n\r\n")
+			return
+		}
+		d.mu.Lock()
+		d.open = append(d.open, oc)
+		li := len(d.log)
+		d.log = append(d.log, DownReq{Method: req.Method, Target: req.RequestURI})
+		d.mu.Unlock()
+		if req.Method == "CONNECT" {
+			io.WriteString(c, "HTTP/1.1 200 Connection established\r\n\r\n")
+			if b, err := br.Peek(1); err == nil {
+				d.mu.Lock()
+				d.log[li].First = fmt.Sprintf("0x%02x", b[0])
+				d.mu.Unlock()
+			}
+			go func() { io.Copy(oc, br); oc.Close() }()
+			io.Copy(c, oc)
+			return
+		}
+		// cleartext request in absolute-form: forward it as it is to the origin
+		req.Write(oc)
+		res, err := http.ReadResponse(bufio.NewReader(oc), req)
+		if err != nil {
+			oc.Close()
+			return
+		}
+		res.Write(c)
+		oc.Close()
 	}
 }
 
@@ -964,44 +1364,119 @@ func (m *recorder) doHijack(ctx *martian.Context) {
 
 // ---- scripted client -------------------------------------------------------------------------------------------
 
-func requestBytes(auth, form string, conn, seq int) string {
-	host := hostGiven(auth)
-	x := fmt.Sprintf("X-C05-Conn: %d\r\nX-C05-Seq: %d\r\n", conn, seq)
+// fill returns exactly n bytes of a deterministic pattern.
+func fill(tag string, n int) string {
+	if n <= 0 {
+		return ""
+	}
+	return strings.Repeat(tag, n/len(tag)+1)[:n]
+}
+
+func sum(s string) string {
+	h := sha1.Sum([]byte(s))
+	return hex.EncodeToString(h[:8])
+}
+
+// reqBody is the (de-framed) body of a request of the given kind.
+func reqBody(kind string, conn, seq int) string {
+	tag := fmt.Sprintf("q%d.%d;", conn, seq)
+	switch kind {
+	case "post_cl", "post_chunked":
+		return fill(tag, 5000) // > the 4096-byte bufio buffers
+	case "post_100":
+		return fill(tag, 200)
+	}
+	return ""
+}
+
+// respBody is what the origin answers: the small identifying line, padded to the size the request asked for.
+func respBody(kind, resp string, conn, seq int) string {
+	base := originBody(kind, conn, seq)
+	n := 0
+	switch resp {
+	case "cl5000":
+		n = 5000 // > bufio buffer
+	case "cl40000", "chunked40000":
+		n = 40000 // > 2 TLS records
+	}
+	if n <= len(base) {
+		return base
+	}
+	return base + fill(fmt.Sprintf("r%d.%d;", conn, seq), n-len(base))
+}
+
+// requestBytes renders request idx (1-based) of a tunnel as the client sends it.
+func requestBytes(ph Phase, idx, conn, seq int) string {
+	form, kind := ph.Forms[idx-1], ph.kind(idx)
+	host := hostGiven(ph.Authority)
 	path := fmt.Sprintf("/c%ds%d", conn, seq)
+	method := "GET"
+	if kind != "get" {
+		method = "POST"
+	}
+	var target, proto, hostLine string
+	proto, hostLine = "HTTP/1.1", "Host: "+host+"\r\n"
 	switch form {
 	case "origin":
-		return fmt.Sprintf("GET %s HTTP/1.1\r\nHost: %s\r\n%s\r\n", path, host, x)
+		target = path
 	case "abs_http":
-		return fmt.Sprintf("GET http://%s%s HTTP/1.1\r\nHost: %s\r\n%s\r\n", host, path, host, x)
+		target = "http://" + host + path
 	case "abs_https":
-		return fmt.Sprintf("GET https://%s%s HTTP/1.1\r\nHost: %s\r\n%s\r\n", host, path, host, x)
+		target = "https://" + host + path
 	case "nohost":
-		// HTTP/1.0 origin-form without a Host header; keep-alive so that later requests can follow it.
-		return fmt.Sprintf("GET %s HTTP/1.0\r\nConnection: keep-alive\r\n%s\r\n", path, x)
+		target = path
+		switch ph.Spell {
+		case "http11_nohdr": // HTTP/1.1 request line, no Host header at all
+			hostLine = ""
+		case "http11_empty": // HTTP/1.1 with an empty Host header
+			hostLine = "Host: \r\n"
+		default: // HTTP/1.0 origin-form without a Host header; keep-alive so that later requests can follow it
+			proto, hostLine = "HTTP/1.0", "Connection: keep-alive\r\n"
+		}
+	default:
+		panic("bad form " + form)
 	}
-	panic("bad form " + form)
+	head := fmt.Sprintf("%s %s %s\r\n%sX-C05-Conn: %d\r\nX-C05-Seq: %d\r\n", method, target, proto, hostLine, conn, seq)
+	if ph.Resp != "" {
+		head += "X-C05-Resp: " + ph.Resp + "\r\n"
+	}
+	if ph.Pad > 0 {
+		head += "X-C05-Pad: " + fill("p", ph.Pad) + "\r\n"
+	}
+	body := reqBody(kind, conn, seq)
+	switch kind {
+	case "post_cl":
+		return head + fmt.Sprintf("Content-Length: %d\r\n\r\n%s", len(body), body)
+	case "post_100":
+		// the client announces Expect: 100-continue but (as it may) does not wait for the interim response
+		return head + fmt.Sprintf("Expect: 100-continue\r\nContent-Length: %d\r\n\r\n%s", len(body), body)
+	case "post_chunked":
+		return head + fmt.Sprintf("Transfer-Encoding: chunked\r\n\r\n%x\r\n%s\r\n%x\r\n%s\r\n0\r\n\r\n", 3000, body[:3000], len(body)-3000, body[3000:])
+	}
+	return head + "\r\n"
 }
 
 type client struct {
-	e      *env
-	h      History
-	ci     int
-	sc     Script
-	items  []item
-	next   int
-	dead   bool
-	sent   map[int]bool // requests already written together with the CONNECT head
-	raw    net.Conn
-	stream net.Conn
-	sbr    *bufio.Reader
-	out    *ConnOut
-	omu    *sync.Mutex
+	e        *env
+	h        History
+	ci       int
+	sc       Script
+	items    []item
+	next     int
+	dead     bool
+	finished bool
+	sent     map[int]bool // requests already written together with the CONNECT head
+	raw      net.Conn
+	stream   net.Conn
+	sbr      *bufio.Reader
+	out      *ConnOut
+	omu      *sync.Mutex
 }
 
 func (c *client) set(f func()) { c.omu.Lock(); f(); c.omu.Unlock() }
 
 func (c *client) open(addr string) {
-	raw, err := net.DialTimeout("tcp", addr, 5*time.Second)
+	raw, err := net.DialTimeout("tcp", addr, dialTimeout)
 	if err != nil {
 		c.set(func() { c.out.DialErr = "dial proxy: " + err.Error() })
 		c.dead = true
@@ -1030,7 +1505,12 @@ func (c *client) tlsConfig(phase int) *tls.Config {
 		name = otherSNI
 	}
 	cfg := &tls.Config{ServerName: name, RootCAs: c.e.mitmRoots}
+	if c.sc.Untrusting {
+		cfg.RootCAs = x509.NewCertPool() // trusts nobody: the forged certificate is rejected
+	}
 	switch c.sc.TLS {
+	case "alpn_http11":
+		cfg.NextProtos = []string{"http/1.1"}
 	case "alpn_h2":
 		cfg.NextProtos = []string{"h2", "http/1.1"}
 	case "tls12":
@@ -1045,7 +1525,9 @@ func (c *client) handshake(po *PhaseOut, cfg *tls.Config, under net.Conn) bool {
 	tc := tls.Client(under, cfg)
 	if err := tc.Handshake(); err != nil {
 		c.set(func() { po.HandshakeErr = err.Error() })
-		c.dead = true
+		if !(c.sc.Untrusting && c.sc.After == "plaintext") {
+			c.dead = true
+		}
 		return false
 	}
 	cs := tc.ConnectionState()
@@ -1084,8 +1566,17 @@ func (c *client) step() {
 		msg := head
 		if early && c.next < len(c.items) {
 			nx := c.items[c.next]
-			msg += requestBytes(ph.Authority, nx.form, c.ci, nx.seq)
+			msg += requestBytes(ph, nx.idx, c.ci, nx.seq)
 			c.sent[nx.seq] = true
+			if c.sc.Pipelined {
+				for _, more := range c.items[c.next+1:] {
+					if more.phase != it.phase || more.connect {
+						break
+					}
+					msg += requestBytes(ph, more.idx, c.ci, more.seq)
+					c.sent[more.seq] = true
+				}
+			}
 		}
 		if _, err := io.WriteString(c.stream, msg); err != nil {
 			c.set(func() { c.out.Phases[it.phase].ConnectErr = "write CONNECT: " + err.Error() })
@@ -1110,7 +1601,17 @@ func (c *client) step() {
 	}
 	cr := ClientRes{Seq: it.seq}
 	if !c.sent[it.seq] {
-		if _, err := io.WriteString(c.stream, requestBytes(ph.Authority, it.form, c.ci, it.seq)); err != nil {
+		msg := requestBytes(ph, it.idx, c.ci, it.seq)
+		if c.sc.Pipelined { // write every remaining request of this tunnel in the same segment
+			for _, nx := range c.items[c.next:] {
+				if nx.phase != it.phase || nx.connect {
+					break
+				}
+				msg += requestBytes(ph, nx.idx, c.ci, nx.seq)
+				c.sent[nx.seq] = true
+			}
+		}
+		if _, err := io.WriteString(c.stream, msg); err != nil {
 			cr.Err = "write request: " + err.Error()
 			c.set(func() { c.out.Client = append(c.out.Client, cr) })
 			c.dead = true
@@ -1126,7 +1627,10 @@ func (c *client) step() {
 	}
 	body, err := io.ReadAll(res.Body)
 	cr.Status = res.StatusCode
-	cr.Body = string(body)
+	cr.Body, cr.Len, cr.Sum = string(body), len(body), sum(string(body))
+	if len(cr.Body) > 200 {
+		cr.Body = cr.Body[:200] + "..."
+	}
 	cr.Hijack = res.Header.Get("X-C05-Hijack") == "1"
 	if err != nil {
 		cr.Err = "read body: " + err.Error()
@@ -1137,9 +1641,10 @@ func (c *client) step() {
 
 // finish answers the hijacker (through the TLS session if there is one) and lets it complete.
 func (c *client) finish(rec *recorder) {
-	if c.raw == nil {
+	if c.raw == nil || c.finished {
 		return
 	}
+	c.finished = true
 	if c.ci == 0 && c.h.Hijack != "none" && c.next == len(c.items) {
 		c.raw.SetDeadline(time.Now().Add(ioDeadline))
 		if _, err := io.WriteString(c.stream, ack); err != nil {
@@ -1164,7 +1669,7 @@ func runHistory(e *env, h History) *Outcome {
 	var omu sync.Mutex // guards out while the client goroutine may still be running (hang path)
 	done := make(chan struct{})
 
-	org, err := newOrigin(e)
+	org, err := newOrigin(e, h.Origin)
 	if err != nil {
 		out.SetupErr = "origin listen: " + err.Error()
 		return out
@@ -1179,21 +1684,38 @@ func runHistory(e *env, h History) *Outcome {
 	var dmu sync.Mutex
 	var dials []string
 
+	mc, err := e.mitmFor(h.Mitm)
+	if err != nil {
+		out.SetupErr = err.Error()
+		return out
+	}
+	var down *downstream
+	if h.Downstream {
+		down = newDownstream(e, org.l.Addr().String())
+		defer down.close()
+	}
 	p := martian.NewProxy()
-	p.SetMITM(e.mc)
+	p.SetMITM(mc)
 	tr, ok := p.GetRoundTripper().(*http.Transport)
 	if !ok {
 		out.SetupErr = fmt.Sprintf("default round tripper is %T, not *http.Transport", p.GetRoundTripper())
 		return out
 	}
 	tr.TLSClientConfig = &tls.Config{RootCAs: e.originPool}
+	tr.TLSHandshakeTimeout = time.Minute // martian's 10 s default trips on an overloaded machine; not part of the property
 	p.SetRoundTripper(tr)
 	p.SetDial(func(network, addr string) (net.Conn, error) {
 		dmu.Lock()
 		dials = append(dials, network+" "+addr)
 		dmu.Unlock()
-		return net.DialTimeout("tcp", org.l.Addr().String(), 5*time.Second)
+		if down != nil && addr == down.l.Addr().String() {
+			return net.DialTimeout("tcp", addr, dialTimeout)
+		}
+		return net.DialTimeout("tcp", org.l.Addr().String(), dialTimeout)
 	})
+	if down != nil {
+		p.SetDownstreamProxy(&url.URL{Scheme: "http", Host: down.l.Addr().String()})
+	}
 	p.SetRequestModifier(rec)
 	p.SetResponseModifier(rec)
 
@@ -1203,11 +1725,11 @@ func runHistory(e *env, h History) *Outcome {
 	case "shaped":
 		l = trafficshape.NewListener(base)
 	case "transparent":
-		l = tls.NewListener(base, e.mc.TLS())
+		l = tls.NewListener(base, mc.TLS())
 	case "tls_over_shaped":
-		l = tls.NewListener(trafficshape.NewListener(base), e.mc.TLS())
+		l = tls.NewListener(trafficshape.NewListener(base), mc.TLS())
 	case "shaped_over_tls":
-		l = trafficshape.NewListener(tls.NewListener(base, e.mc.TLS()))
+		l = trafficshape.NewListener(tls.NewListener(base, mc.TLS()))
 	}
 	go p.Serve(l)
 
@@ -1226,6 +1748,11 @@ func runHistory(e *env, h History) *Outcome {
 				if c.remaining() {
 					c.step()
 					progress = true
+					if !c.remaining() {
+						// done (or failed): answer the hijacker if there is one and close, while the other
+						// connection carries on
+						c.finish(rec)
+					}
 				}
 			}
 		}
@@ -1258,6 +1785,11 @@ func runHistory(e *env, h History) *Outcome {
 	dmu.Lock()
 	out.Dials = append([]string(nil), dials...)
 	dmu.Unlock()
+	if down != nil {
+		down.mu.Lock()
+		out.Down = append([]DownReq(nil), down.log...)
+		down.mu.Unlock()
+	}
 	b, _ := json.Marshal(out) // deep copy while holding the lock
 	omu.Unlock()
 	cp := &Outcome{}
@@ -1353,7 +1885,8 @@ func judge(o *Outcome, st *judgeStats) []V {
 			}
 		}
 		items := h.items(ci)
-		connSession := -2 // session of the first message seen on this connection
+		undecrypted := map[int]bool{} // tunnels whose TLS handshake the client aborted
+		connSession := -2             // session of the first message seen on this connection
 		var connectObs *ReqObs
 		stop := false
 		for k := 0; k < len(items) && !stop; k++ {
@@ -1394,7 +1927,13 @@ func judge(o *Outcome, st *judgeStats) []V {
 				}
 				if tlsIn {
 					check()
-					if po.HandshakeErr != "" {
+					if po.HandshakeErr != "" && sc.Untrusting {
+						// expected: this client rejects the forged certificate. What it sends afterwards was never decrypted.
+						undecrypted[it.phase] = true
+						if it.connect {
+							continue
+						}
+					} else if po.HandshakeErr != "" {
 						addV(E, "client_tls_handshake_fails", pat, "TLS handshake with the proxy (client ServerName %q, profile %s, CONNECT status %d) failed: %s", sniName(sc, ph), sc.TLS, po.ConnectStatus, po.HandshakeErr)
 						stop = true
 						continue
@@ -1428,6 +1967,15 @@ func judge(o *Outcome, st *judgeStats) []V {
 			check()
 			if ob == nil {
 				addV(E, "request_not_presented_to_modifiers", at, "request %d (%s) of the tunnel was sent but the request modifier never saw it; client: status=%d err=%q", it.idx, it.form, cr.Status, cr.Err)
+				continue
+			}
+			if undecrypted[it.phase] {
+				// Nothing was decrypted in this tunnel (the handshake failed): whatever the proxy does with cleartext sent
+				// afterwards, it cannot present it as read from a TLS connection.
+				check()
+				if ob.Secure || ob.TLS || ob.Scheme == "https" {
+					addV(E, "undecrypted_request_presented_as_secure", at, "request %d (%s) was sent in cleartext after the client aborted the TLS handshake, but modifiers see scheme=%q secure=%v req.TLS!=nil=%v", it.idx, it.form, ob.Scheme, ob.Secure, ob.TLS)
+				}
 				continue
 			}
 			st.obsKeys[fmt.Sprintf("%s|%s|%s|%v|scheme=%s|secure=%v|tls=%v|v=%x|hostok=%v|res=%v", E, h.Space, h.Listener, at, ob.Scheme, ob.Secure, ob.TLS, ob.TLSVersion, hostOK(ph.Authority, ob.URLHost), ob.ResSeen)] = true
@@ -1544,7 +2092,7 @@ func judge(o *Outcome, st *judgeStats) []V {
 					addV(E, "forwarded_upstream_in_cleartext", at, "request %d (%s) decrypted from the TLS tunnel reached the origin over a cleartext connection (dials: %v)", it.idx, it.form, o.Dials)
 				case !tlsIn && overTLS > 0:
 					addV(E, "plaintext_request_forwarded_over_tls", at, "plaintext request %d (%s) inside CONNECT reached the origin over TLS, not as plain HTTP", it.idx, it.form)
-				case len(up) == 0 && judgedHost && !hostBad:
+				case len(up) == 0 && judgedHost && !hostBad && h.Origin == "":
 					addV(E, "not_forwarded_upstream", at, "request %d (%s) never reached the origin (client status=%d err=%q, dials: %v)", it.idx, it.form, cr.Status, cr.Err, o.Dials)
 				case len(up) > 1:
 					addV(E, "forwarded_more_than_once", at, "request %d (%s) reached the origin %d times", it.idx, it.form, len(up))
@@ -1563,8 +2111,16 @@ func judge(o *Outcome, st *judgeStats) []V {
 					addV(E, "response_not_inside_client_tls_session", at, "request %d (%s): the client could not read a response through its TLS session: %s", it.idx, it.form, cr.Err)
 				case cr.Err != "":
 					addV(E, "plaintext_response_not_delivered", at, "request %d (%s): the client could not read a response: %s", it.idx, it.form, cr.Err)
-				case len(up) == 1 && (cr.Status != 200 || cr.Body != originBody(kind, ci, it.seq)):
-					addV(E, "response_is_not_the_origins", at, "request %d (%s): origin answered %q but the client read status=%d body=%q", it.idx, it.form, originBody(kind, ci, it.seq), cr.Status, cr.Body)
+				case len(up) == 1 && (cr.Status != 200 || cr.Sum != sum(respBody(kind, ph.Resp, ci, it.seq))):
+					want := respBody(kind, ph.Resp, ci, it.seq)
+					addV(E, "response_is_not_the_origins", at, "request %d (%s): origin answered %d bytes (digest %s, starting %q) but the client read status=%d, %d bytes (digest %s, starting %q)", it.idx, it.form, len(want), sum(want), originBody(kind, ci, it.seq), cr.Status, cr.Len, cr.Sum, cr.Body)
+				}
+				if len(up) == 1 && ph.Kinds != nil {
+					check()
+					want := reqBody(ph.kind(it.idx), ci, it.seq)
+					if up[0].BodyLen != len(want) || up[0].BodySum != sum(want) {
+						addV(E, "request_body_not_forwarded_intact", at, "request %d (%s, %s): the client sent a %d-byte body (digest %s), the origin received %d bytes (digest %s)", it.idx, it.form, ph.kind(it.idx), len(want), sum(want), up[0].BodyLen, up[0].BodySum)
+					}
 				}
 			}
 
@@ -1644,7 +2200,7 @@ func sniName(sc Script, ph Phase) string {
 
 // Signatures: <entry>[:attr=values...]:<symptom>; an attribute is mentioned only if the symptom does NOT occur for
 // all values that attribute takes among the enumerated requests of that entry.
-var attrOrder = []string{"listener", "port", "auth", "sni", "tls", "early", "outer", "peer", "cls", "form", "pos", "via"}
+var attrOrder = []string{"listener", "port", "auth", "sni", "tls", "early", "outer", "peer", "first", "mitm", "origin", "after", "spell", "kind", "pad", "resp", "pipelined", "cls", "form", "pos", "via"}
 
 func computeDomains(hs []History) map[string]map[string]map[string]bool {
 	dom := map[string]map[string]map[string]bool{}
@@ -1949,7 +2505,7 @@ func main() {
 		"no-Host requests are HTTP/1.0 origin-form with Connection: keep-alive so that later requests can follow on the connection",
 		"a second CONNECT inside a plaintext tunnel opens a new tunnel on the same connection and session; requests after it are judged against the second tunnel (its authority, its content)",
 		"'same segment' = one Write call on a loopback TCP connection",
-		"hang deadlines (12 s per I/O, 60 s per history) are liveness guards only",
+		"hang deadlines (20 s per I/O, 90 s per history) are liveness guards only; a symptom seen on at most 3 histories is re-run alone and reported only if it reproduces (the histories are deterministic; wall-clock guards fire spuriously on the overloaded shared machine)",
 		"nested space: only TLS inside the tunnel is enumerated (whether plaintext inside a CONNECT that itself arrived over TLS is an 'insecure session' is not decided by the statement); the CONNECT request itself, read from the outer TLS connection, is only judged for session sharing",
 		"the internal time cap (45 s quick / 9 min thorough) only stops the enumeration early (reported as incomplete)",
 		"hijack at the CONNECT request itself (before any decryption exists) belongs to C02 and is not enumerated",
@@ -2019,10 +2575,24 @@ func main() {
 					}
 				}
 				if !wasStarted {
+					if werr == nil || prev < 0 || isolated[prev] {
+						rmu.Lock()
+						engineErr = fmt.Sprintf("worker %d exited (%v) before starting history %d; output:\n%s", s, werr, missing, tail(wout, 4000))
+						rmu.Unlock()
+						return
+					}
+					// The worker died between two histories: a proxy goroutine of the history that had just been
+					// reported (prev) was still panicking. Re-run that one alone, then carry on with the rest.
+					isolated[prev] = true
+					r := runIsolated(hs[prev], filepath.Join(dir, fmt.Sprintf("only-%d.json", prev)))
+					if r.Crash == "" {
+						r = crashResult(hs[prev], "worker died right after this history (not reproduced when re-run alone): "+crashText(werr, wout))
+					}
 					rmu.Lock()
-					engineErr = fmt.Sprintf("worker %d exited (%v) before starting history %d; output:\n%s", s, werr, missing, tail(wout, 4000))
+					results[prev] = r
 					rmu.Unlock()
-					return
+					wout, werr = rerunShard(s, nshards, missing, files[s])
+					continue
 				}
 				reproduced := false
 				for _, id := range []int{prev, missing} {
@@ -2117,6 +2687,56 @@ func main() {
 		if sampled(k, len(hs)) && r.Outcome != nil {
 			rep.Sample(8, map[string]interface{}{"history": h.String(), "modifier_view": r.Outcome.Reqs, "origin": r.Outcome.OriginReqs, "client": r.Outcome.Conns, "violated": syms})
 		}
+	}
+	// Confirmation: every history is a deterministic sequential script, so a genuine violation reproduces when the
+	// history is run again. A symptom seen on at most 3 histories is re-run alone (twice at most per history, the
+	// bulk phase is over by now); if it never shows again it was an artefact of the overloaded machine (a
+	// wall-clock guard of the harness or of net/http fired) and is recorded as unconfirmed instead of reported.
+	{
+		type gk struct{ e, s string }
+		groups := map[gk][]vref{}
+		for _, r := range all {
+			k := gk{r.v.Entry, r.v.Symptom}
+			groups[k] = append(groups[k], r)
+		}
+		drop := map[*V]bool{}
+		var unconfirmed []string
+		for k, g := range groups {
+			if len(g) > 3 || k.s == "proxy_process_terminated" {
+				continue
+			}
+			confirmed := false
+			for _, r := range g {
+				for attempt := 0; attempt < 2 && !confirmed; attempt++ {
+					rr := runIsolated(hs[r.id], filepath.Join(dir, fmt.Sprintf("confirm-%d.json", r.id)))
+					for _, v := range rr.Vs {
+						if v.Entry == k.e && v.Symptom == k.s {
+							confirmed = true
+						}
+					}
+				}
+			}
+			if !confirmed {
+				for _, r := range g {
+					drop[r.v] = true
+					unconfirmed = append(unconfirmed, k.e+":"+k.s+" — "+r.v.Desc)
+				}
+			}
+		}
+		if len(unconfirmed) > 0 {
+			var kept []vref
+			for _, r := range all {
+				if !drop[r.v] {
+					kept = append(kept, r)
+				}
+			}
+			all = kept
+			sort.Strings(unconfirmed)
+			for _, u := range unconfirmed {
+				fmt.Fprintln(os.Stderr, "C05: not reproduced when re-run alone (ignored):", u)
+			}
+		}
+		rep.Coverage["unconfirmed_not_reproduced"] = unconfirmed
 	}
 	sigs := signatures(all, computeDomains(hs))
 	for _, r := range all {
